@@ -6,7 +6,7 @@ From Coq Require Import List NArith ZArith.
 From Muscle Require Import Refl.Base Refl.BaseProofs Refl.Tree Refl.TreeProofs Refl.Matcher Refl.MatcherProofs
      Refl.Traverse Refl.TraverseSpec Refl.Session Refl.Server Refl.ServerProofs Refl.RefcountProofs
      Refl.Concrete Refl.Examples Refl.Mirror Refl.MirrorBase Refl.MirrorCmd Refl.MirrorFrame Refl.MirrorProofs
-     Refl.MirrorCheck Refl.MirrorExamples.
+     Refl.MirrorCheck Refl.MirrorExamples Refl.Params Refl.ParamsProofs Refl.ParamsExamples.
 
 (* refcount_inv (full): in every reachable state, for every node n and session id s, the node's subscriber table
    holds for s exactly the number of s's subscription paths that match n (GetMatchCount of s's _subscriptions;
@@ -91,6 +91,22 @@ Theorem C04_mirror_converges_partial :
 Proof. exact @mirror_converges_partial. Qed.
 Print Assumptions C04_mirror_converges_partial.
 
+(* the same for histories as they are on the wire (Refl/Params.v): PR_COMMAND_REMOVEPARAMETERS works on parameter NAMES, so
+   an unsubscribe under a spelling the client did not subscribe with ("SUBSCRIBE:x" for "SUBSCRIBE:/*/*/x") removes nothing;
+   [pworld_run] threads every session's SUBSCRIBE: parameter names and lowers each command to what Server.v executes. *)
+Theorem C04_mirror_converges_wire :
+  forall (M : MatchOps) (L : MatchLaws M) (fx : fixes),
+  fx_guard fx = true -> fx_overlap fx = true -> fx_push fx = true ->
+  forall (evs : list event) (o : sid),
+  wf_prun fx empty_pworld evs -> Forall ev_ok evs -> Forall (ev_clean o) evs -> small (run_budget evs) ->
+  let w := pw_world (pworld_run fx evs empty_pworld) in
+  forall (c : client) (ss : session),
+  In c (w_clients w) -> c_id c = o -> get_session (w_srv w) o = Some ss ->
+  forall q : path, own_node ss q = false ->
+  mirror_get (c_mirror c) q = expected (sv_tree (w_srv w)) ss q.
+Proof. exact @mirror_converges_wire. Qed.
+Print Assumptions C04_mirror_converges_wire.
+
 (* the repairs are necessary: with any one switched off, a clean history violates the statement
    (witnesses replayed on the real server: findings F12, F37, F38) *)
 Theorem C04_mirror_refuted_without_F12_repair :
@@ -123,3 +139,11 @@ Example C04_mirror_premises_imply_hypotheses :
   forall (M : MatchOps) (L : MatchLaws M) (fx : fixes) evs o, premises_b fx evs o = true ->
   wf_wrun fx empty_world evs /\ Forall ev_ok evs /\ Forall (ev_clean o) evs /\ small (run_budget evs).
 Proof. exact @premises_b_spec. Qed.
+
+(* non-vacuity of mirror_converges_wire, and the parameter-name rule on a concrete history *)
+Example C04_wire_premises_satisfiable :
+  wf_prun_b all_fixed empty_pworld exw = true /\ forallb ev_ok_b exw = true /\ forallb (ev_clean_b 0%N) exw = true.
+Proof. exact wire_premises_satisfiable. Qed.
+Example C04_wire_premises_imply_hypotheses :
+  forall (fx : fixes) evs pw, wf_prun_b fx pw evs = true -> wf_prun fx pw evs.
+Proof. exact wf_prun_b_spec. Qed.
